@@ -68,8 +68,12 @@ func (b *exampleBuilder) buildExampleForObjectNode(node *ischema.ObjectNode) ([]
 
 		if ex == nil {
 			// A recursion cut-off: the property is left out, so the separator must
-			// not depend on its position.
-			continue
+			// not depend on its position. A nullable property is not: it is required
+			// all the same, and null is the value that ends the recursion.
+			if !ischema.IsNullableNode(childNode) {
+				continue
+			}
+			ex = []byte("null")
 		}
 
 		k, err := b.buildObjectKey(node.Key(i))
